@@ -519,7 +519,7 @@ Theorem C25_prop_of_model_lemma : forall i r,
   accepted i = inr r -> safe_request r = true -> wf_wreq r = true ->
   prop_C25 i (run_C25 i) = true.
 Proof.
-  intros i r Ha Hs Hw. unfold run_C25. rewrite Ha, Hs. unfold prop_C25, not_modelled. rewrite Ha.
+  intros i r Ha Hs Hw. unfold run_C25. rewrite Ha, Hs. unfold prop_C25, is_scenario, not_modelled. rewrite Ha.
   cbn [orb]. cbv beta iota. change (0 =? 0) with true. cbv iota.
   rewrite (C25_one_wellformed_request_lemma r Hs Hw). apply sreq_eqb_refl.
 Qed.
@@ -780,12 +780,82 @@ Theorem C25_central_lemma : forall i,
   wf_C25 i = true -> kf_C25 i = 0 -> prop_C25 i (run_C25 i) = true.
 Proof.
   intros i Hw _. unfold wf_C25 in Hw. destruct (accepted i) as [c|r] eqn:Ha.
-  - unfold run_C25, prop_C25, not_modelled. rewrite Ha. apply negb_true_iff in Hw. rewrite Hw.
+  - unfold run_C25, prop_C25, is_scenario, not_modelled. rewrite Ha. apply negb_true_iff in Hw. rewrite Hw. cbn [andb].
     destruct (c =? 98); [reflexivity|]. cbn [orb]. destruct (c =? 2); reflexivity.
   - destruct (safe_request r) eqn:Hs.
     + apply (C25_prop_of_model_lemma i r Ha Hs). unfold wf_wreq. rewrite (frontends_canonical i r Ha). exact Hw.
-    + rewrite (C25_unsafe_refused_lemma i r Ha Hs). unfold prop_C25, not_modelled. rewrite Ha. reflexivity.
+    + rewrite (C25_unsafe_refused_lemma i r Ha Hs). unfold prop_C25, is_scenario, not_modelled. rewrite Ha. reflexivity.
 Qed.
 
 Lemma C25_wf_examples_lemma : wf_C25 ok1 = true /\ wf_C25 ok2 = true /\ wf_C25 ok3 = true /\ wf_C25 ok4 = true /\ wf_C25 w31 = true.
 Proof. repeat split; vm_compute; reflexivity. Qed.
+
+(* ---------- transport level (several requests over kept-alive backend connections) ---------- *)
+Definition mk_step (m p : bytes) (n : Z) (d : bytes) (early close err : bool) : tstep :=
+  {| t_method := m; t_path := p; t_declared := n; t_delivered := d; t_early := early; t_respclose := close; t_bodyerr := err |}.
+Definition b_post : bytes := [80;79;83;84].
+(* the scenario of seeded/C25-r4: POST /first declares 10 bytes, the backend answers early, the body ends
+   after "abcd"; then GET /second *)
+Definition sc_demo : list tstep :=
+  [mk_step b_post [47;102;105;114;115;116] 10 [97;98;99;100] true false false;
+   mk_step b_get [47;115;101;99;111;110;100] 0 [] false false false].
+(* the model never re-uses the connection of the failed write: two connections, both streams acceptable *)
+Lemma C25_transport_demo_lemma :
+  length (run_transport sc_demo [] false) = 2%nat /\
+  forallb (fun s => seq_ok (S (length s)) s) (run_transport sc_demo [] false) = true.
+Proof. split; vm_compute; reflexivity. Qed.
+(* what a transport that re-used the connection would produce (first request's header block and buffered
+   "abcd", then the second request) is rejected by the predicate: it is not a sequence of requests *)
+Definition spliced_demo : bytes :=
+  write_request (step_req (mk_step b_post [47;102;105;114;115;116] 10 [] true false false) [97;98;99;100]) ++
+  write_request (step_req (mk_step b_get [47;115;101;99;111;110;100] 0 [] false false false) []).
+Lemma C25_transport_splice_rejected_lemma : seq_ok (S (length spliced_demo)) spliced_demo = false.
+Proof. vm_compute. reflexivity. Qed.
+(* three requests, complete bodies, keep-alive: one connection carrying three complete requests *)
+Definition sc_keepalive : list tstep :=
+  [mk_step b_post [47;97] 3 [120;121;122] true false false;
+   mk_step b_get [47;98] 0 [] false false false;
+   mk_step b_post [47;99] 2 [49;50] false false false].
+Lemma C25_transport_keepalive_lemma :
+  length (run_transport sc_keepalive [] false) = 1%nat /\
+  forallb (fun s => seq_ok (S (length s)) s) (run_transport sc_keepalive [] false) = true.
+Proof. split; vm_compute; reflexivity. Qed.
+
+(* General (all scenarios): a backend connection that is not usable any more -- its last exchange failed,
+   was cut short or carried "Connection: close" -- never receives another byte, whatever follows. *)
+Lemma run_transport_shape : forall steps conns last cur,
+  exists last' more, run_transport steps (conns ++ [last]) cur = conns ++ [last'] ++ more /\
+                     (cur = false -> last' = last).
+Proof.
+  induction steps as [|st r IH]; intros conns last cur; cbn [run_transport].
+  - exists last, []. split; [reflexivity|auto].
+  - destruct cur.
+    + rewrite rev_app_distr. cbn [rev app]. rewrite rev_involutive.
+      destruct (IH conns (last ++ step_bytes st) (step_keeps st)) as [l' [more [E _]]].
+      exists l', more. split; [exact E|discriminate].
+    + destruct (IH (conns ++ [last]) (step_bytes st) (step_keeps st)) as [l' [more [E _]]].
+      exists last, ([l'] ++ more). split; [|reflexivity].
+      rewrite E. rewrite <- !app_assoc. reflexivity.
+Qed.
+Theorem C25_transport_no_reuse_lemma : forall steps conns last,
+  exists more, run_transport steps (conns ++ [last]) false = conns ++ [last] ++ more.
+Proof.
+  intros. destruct (run_transport_shape steps conns last false) as [l' [more [E H]]].
+  exists more. rewrite E, (H eq_refl). reflexivity.
+Qed.
+(* ... and a connection is kept usable only by a step whose complete request was written (declared length
+   = delivered length, no body error, no "Connection: close"), i.e. whose bytes are write_request of a
+   request with a well-formed body -- to which C25_one_wellformed_request applies. *)
+Theorem C25_transport_kept_is_complete_lemma : forall st, step_keeps st = true ->
+  step_bytes st = write_request (step_req st (t_delivered st)) /\
+  body_wf (w_body (step_req st (t_delivered st))) = true \/ t_declared st = 0 \/ 10 ^ 80 <= t_declared st.
+Proof.
+  intros st H. unfold step_keeps in H. apply andb_true_iff in H. destruct H as [Hok Hc].
+  apply negb_true_iff in Hc. unfold step_bytes. rewrite Hok, Hc, andb_false_r. cbn [negb andb].
+  unfold step_ok in Hok. apply andb_true_iff in Hok. destruct Hok as [Hl _]. apply Z.eqb_eq in Hl.
+  destruct (t_declared st =? 0) eqn:E0; [right; left; apply Z.eqb_eq; exact E0|].
+  destruct (t_declared st <? 10 ^ 80) eqn:E80; [|right; right; apply Z.ltb_ge; exact E80].
+  left. split; [reflexivity|]. unfold step_req. cbn [w_body]. rewrite E0. cbn [body_wf].
+  rewrite E80, Hl, Z.eqb_refl. cbn [andb]. rewrite andb_true_r. apply Z.ltb_lt.
+  pose proof (Zle_0_nat (length (t_delivered st))). apply Z.eqb_neq in E0. unfold blen in Hl. lia.
+Qed.
